@@ -109,7 +109,7 @@ def main():
                 "(%s, [%s])" % (T(o), "; ".join(T(f) for f in fs)) for o, fs in modes),
             "Definition config_flags : list ((list N) * (list N)) :=\n  [%s]." % ";\n   ".join("(%s, %s)" % (T(o), T(a)) for o, a in flags),
             ""])
-    except (Unsupported, OSError, SyntaxError) as e:
+    except Exception as e:  # noqa: BLE001 (fail-closed: whatever goes wrong gives the stub)
         sys.stderr.write("extract_dispatch: %s\n" % e)
         reason = str(e).replace("*)", "* )").replace("(*", "( *")[:300]
         text = "\n".join(head + ["(* STUB: %s *)" % reason, "Definition ok_dispatch : bool := false.",
